@@ -130,9 +130,9 @@ func c17Run(c *vcore.Ctx) *vcore.Violation {
 					go func() { done <- exec.Command("/bin/true").Run() }()
 					select {
 					case <-done:
-					case <-time.After(20 * time.Second):
+					case <-time.After(60 * time.Second):
 						pidMu.Lock()
-						r.blocked = "a helper process started by the callback had not been started and reaped after 20 s"
+						r.blocked = "a helper process started by the callback had not been started and reaped after 60 s"
 						pidMu.Unlock()
 					}
 				}
@@ -250,7 +250,7 @@ func c17Run(c *vcore.Ctx) *vcore.Violation {
 			rounds = 4
 		}
 	}
-	ok := watchdog(90*time.Second, func() { close(start); wg.Wait(); close(stopNoise); noiseWG.Wait() })
+	ok := watchdog(150*time.Second, func() { close(start); wg.Wait(); close(stopNoise); noiseWG.Wait() })
 	if !ok {
 		return vcore.Violate(prop, "hang", "batch", "a batch of %d concurrent runs did not finish", n)
 	}
